@@ -23,6 +23,9 @@ var (
 		"alertdialog":   {},
 		"dialog":        {},
 	}
+
+	// Elements whose text is neither escaped by the HTML serializer nor unescaped by the parser.
+	literalTextElements = []string{"iframe", "noembed", "noframes", "noscript", "plaintext", "script", "style", "xmp"}
 )
 
 // isElementWithoutContent determines if node is empty
